@@ -41,17 +41,20 @@ Qed.
 Lemma update_rules_iff c :
   c_update c = true ->
   (update_rule_failures c = [] <->
-   parent_count c = 1%nat /\ actions_allowed c /\ (c_thumbs c <= UPDATE_THUMBNAIL_LIMIT)%nat).
+   parent_count c = 1%nat /\ c_hashes c = O /\ actions_allowed c /\ (c_thumbs c <= UPDATE_THUMBNAIL_LIMIT)%nat).
 Proof.
   intros Hu. unfold update_rule_failures. rewrite Hu.
   rewrite !app_nil_iff, action_failures_nil.
+  destruct (Nat.eqb (c_hashes c) 0) eqn:Eh; cbn [negb].
+  2:{ apply Nat.eqb_neq in Eh. split; [intros (H & _); discriminate|intros (_ & H & _); contradiction]. }
+  apply Nat.eqb_eq in Eh.
   destruct (Nat.ltb UPDATE_THUMBNAIL_LIMIT (c_thumbs c)) eqn:Et.
-  - apply Nat.ltb_lt in Et. split; [intros (_ & H & _); discriminate|intros (_ & _ & H); lia].
+  - apply Nat.ltb_lt in Et. split; [intros (_ & _ & H & _); discriminate|intros (_ & _ & _ & H); lia].
   - apply Nat.ltb_ge in Et.
     destruct (parent_count c) as [|[|n]].
-    + split; [intros (_ & _ & H); discriminate|intros (H & _); discriminate].
-    + split; [intros (H & _ & _); auto|intros (_ & H & _); auto].
-    + split; [intros (_ & _ & H); discriminate|intros (H & _); discriminate].
+    + split; [intros (_ & _ & _ & H); discriminate|intros (H & _); discriminate].
+    + split; [intros (_ & H & _ & _); auto|intros (_ & _ & H & _); auto].
+    + split; [intros (_ & _ & _ & H); discriminate|intros (H & _); discriminate].
 Qed.
 
 (* no code of the manifest.update.* family among the failures *)
@@ -65,7 +68,9 @@ Lemma update_rules_codes c :
 Proof.
   intros Hu. split; [|intros ->; reflexivity].
   unfold update_rule_failures. rewrite Hu. intros H.
+  apply no_update_code_app in H. destruct H as [Hb H].
   apply no_update_code_app in H. destruct H as [Ha H]. apply no_update_code_app in H. destruct H as [Ht Hp].
+  destruct (negb (Nat.eqb (c_hashes c) 0)); [discriminate|]. cbn [app].
   assert (action_failures c = []) as ->.
   { clear -Ha. unfold action_failures in *. induction (c_actions c) as [|aa t IH]; cbn [flat_map] in *; [reflexivity|].
     apply no_update_code_app in Ha. destruct Ha as [H1 H2]. rewrite (IH H2), app_nil_r.
@@ -138,11 +143,11 @@ Proof.
   destruct (Nat.eqb (c_hashes b) 0), (Nat.eqb (c_hashes b) 1); reflexivity.
 Qed.
 
-(* the update-manifest rules as the code implements them *)
-Theorem update_rules_as_coded st c l :
+(* the update-manifest rules: exactly the property's rule set (plus the thumbnail rule as coded) *)
+Theorem update_valid_only_if st c l :
   c_update c = true -> get_claim st (c_label c) = Some c -> binding_manifest st c = Some l ->
   (no_update_code (verify_active st c) <->
-   parent_count c = 1%nat /\ actions_allowed c /\ (c_thumbs c <= UPDATE_THUMBNAIL_LIMIT)%nat).
+   parent_count c = 1%nat /\ c_hashes c = O /\ actions_allowed c /\ (c_thumbs c <= UPDATE_THUMBNAIL_LIMIT)%nat).
 Proof.
   intros Hu Hc Hb. unfold verify_active. rewrite Hb.
   rewrite no_update_code_app, (update_rules_codes _ Hu), (update_rules_iff _ Hu).
@@ -152,39 +157,34 @@ Proof.
   - assert (no_update_code []) by reflexivity. tauto.
 Qed.
 
-(* ... so a hard-binding assertion inside an update manifest goes unnoticed (known finding F-UPDATE-HARDBINDING) *)
+(* a hard-binding assertion inside an update manifest is flagged by verify_internal itself (the test in
+   verify_hash_binding stays unreachable: binding_never_update) *)
 Definition has_hard_binding (c : claim) : Prop := c_hashes c <> O.
+
+Theorem hard_binding_flagged c :
+  c_update c = true -> has_hard_binding c -> In UpdateInvalid (update_rule_failures c).
+Proof.
+  intros Hu Hh. unfold update_rule_failures. rewrite Hu. apply Nat.eqb_neq in Hh. rewrite Hh. left. reflexivity.
+Qed.
 
 Definition hb_parent : claim := Claim 1 false [] 1 [] 0.
 Definition hb_update : claim := Claim 2 true [Ing ParentOf (Some 1)] 1 [["c2pa.opened"%string]] 0.
 
-Lemma hard_binding_refuted :
-  c_update hb_update = true /\ has_hard_binding hb_update /\ verify_active [hb_parent; hb_update] hb_update = [].
-Proof. split; [reflexivity|split; [intros H; discriminate H|vm_compute; reflexivity]]. Qed.
-
-(* the property's rule set, outside the known class *)
-Theorem update_valid_only_if st c l :
-  c_update c = true -> get_claim st (c_label c) = Some c -> binding_manifest st c = Some l ->
-  ~ has_hard_binding c ->
-  (no_update_code (verify_active st c) <->
-   parent_count c = 1%nat /\ c_hashes c = O /\ actions_allowed c /\ (c_thumbs c <= UPDATE_THUMBNAIL_LIMIT)%nat).
-Proof.
-  intros Hu Hc Hb Hk. rewrite (update_rules_as_coded _ _ _ Hu Hc Hb).
-  unfold has_hard_binding in Hk. assert (c_hashes c = O) by (destruct (c_hashes c); [reflexivity|exfalso; apply Hk; discriminate]).
-  tauto.
-Qed.
+(* the former counterexample (F-UPDATE-HARDBINDING) is now rejected *)
+Lemma hard_binding_witness_rejected : verify_active [hb_parent; hb_update] hb_update = [UpdateInvalid].
+Proof. vm_compute. reflexivity. Qed.
 
 (* a fully clean verdict needs the rules, a binding manifest that is not an update manifest, and exactly one hard binding there *)
 Theorem verify_active_clean st c :
   c_update c = true -> get_claim st (c_label c) = Some c ->
   verify_active st c = [] ->
-  parent_count c = 1%nat /\ actions_allowed c /\ (c_thumbs c <= UPDATE_THUMBNAIL_LIMIT)%nat /\
+  parent_count c = 1%nat /\ c_hashes c = O /\ actions_allowed c /\ (c_thumbs c <= UPDATE_THUMBNAIL_LIMIT)%nat /\
   exists l b, binding_manifest st c = Some l /\ get_claim st l = Some b /\ c_update b = false /\ c_hashes b = 1%nat.
 Proof.
   intros Hu Hc. unfold verify_active.
   destruct (binding_manifest st c) as [l|] eqn:Hb; [|discriminate].
   intros H. apply app_nil_iff in H. destruct H as [H1 H2].
-  apply (update_rules_iff _ Hu) in H1. destruct H1 as (Hp & Ha & Ht). repeat split; auto.
+  apply (update_rules_iff _ Hu) in H1. destruct H1 as (Hp & Hz & Ha & Ht). repeat split; auto.
   destruct (binding_sound _ _ _ _ _ Hb) as (b' & Hor & Hl & Hub & Hh).
   assert (Hg : get_claim st l = Some b') by (destruct Hor as [-> | Hg]; [rewrite <- Hl; exact Hc|exact Hg]).
   rewrite Hg in H2. exists l, b'. repeat split; auto.
